@@ -2130,7 +2130,8 @@ class Evaluator:
                 return a[0] ** 2
             if short in ('power', 'float_power') and numeric and len(a) == 2 and not kwargs:
                 return a[0] ** a[1]
-            if short in ('multiply', 'add', 'subtract', 'true_divide', 'divide') and numeric and len(a) == 2 and not kwargs:
+            if short in ('multiply', 'add', 'subtract', 'true_divide', 'divide') and numeric and len(a) == 2 and (
+                    not kwargs or (set(kwargs) == {'dtype'} and 'float' in show(kwargs['dtype'], 60))):
                 return {'multiply': a[0] * a[1], 'add': a[0] + a[1], 'subtract': a[0] - a[1]}.get(short, a[0] / a[1])
             if short in ('abs', 'fabs', 'absolute') and numeric and len(a) == 1:
                 return sp.Abs(a[0])
@@ -2180,8 +2181,11 @@ class Evaluator:
                 return sp.Integer(int(a[0].v)) if short == 'int' else sp.Float(float(a[0].v))
             if short == 'int' and len(a) == 1 and isinstance(a[0], sp.Float) and float(a[0]) == int(float(a[0])):
                 return sp.Integer(int(float(a[0])))
+            if short in ('float', 'int') and len(a) == 1 and isinstance(a[0], Ite) and not kwargs:
+                # int(c ? x : y) == c ? int(x) : int(y)
+                return mk_ite(a[0].cond, self.prim(name, [a[0].a], {}, fr), self.prim(name, [a[0].b], {}, fr))
             if short in ('float', 'int') and len(a) == 1 and is_num(a[0]):
-                if short == 'int' and not isinstance(a[0], (sp.floor, sp.ceiling, sp.Integer)):
+                if short == 'int' and not isinstance(a[0], (sp.floor, sp.ceiling, sp.Integer)) and a[0].is_integer is not True:
                     return sp.Function('int')(a[0])
                 return a[0]
             if short == 'atleast_1d' and len(a) == 1 and isinstance(a[0], Tup) and a[0].items:
